@@ -70,10 +70,11 @@ class Check:
         self.broken = []      # list of (what, detail): obligations / ties that no longer check
         self.rundir = os.path.join(COQ, "Run", pid)
         self.known = []
-        kf = os.path.join(VERIF, "known_findings.json")
-        if os.path.exists(kf):
-            with open(kf) as f:
-                self.known = [k for k in json.load(f) if k.get("property") == pid]
+        import glob
+        for kf in [os.path.join(VERIF, "known_findings.json")] + sorted(glob.glob(os.path.join(VERIF, "findings", "*.json"))):
+            if os.path.exists(kf):
+                with open(kf) as f:
+                    self.known += [k for k in json.load(f) if k.get("property") == pid]
 
     def note(self, s):
         self.log.append(s)
